@@ -685,6 +685,18 @@ class ClusterLife:
         self.kind = None
         self.cfg = None
         self.fit_state = None          # (metric name, k, X)
+        self.buffers = {}              # caller-owned arrays that live as long as this history and are refilled in place
+
+    def caller_buffer(self, store, n, d):
+        """The SAME array object for every fit of this history that names this store and shape (a caller that keeps one
+        table and overwrites its contents between runs); column-major or a column slice of a wider table."""
+        key = (store, n, d)
+        if key not in self.buffers:
+            if store == "refill_F":
+                self.buffers[key] = np.zeros((n, d), dtype=np.float64, order="F")
+            else:
+                self.buffers[key] = np.zeros((n, 2 * d + 1), dtype=np.float64)[:, 1::2]
+        return self.buffers[key]
 
     def metric_obj(self, name):
         return _resolved(rc.library_metric(name))
@@ -743,8 +755,15 @@ class ClusterLife:
             kk = self.cfg["k"]
             if self.kind == "KMedoids" and kk > rc.max_distinct_k(len(X)):
                 raise Skip("cold k-medoids start needs k distinct random frames")
+            store = op.get("store", "copy")
+            if store == "copy":
+                given = X.copy()
+            else:
+                given = self.caller_buffer(store, *X.shape)
+                given[...] = X
             with rc.pinned_global_rng(op["seed"]):
-                self.est.fit(X.copy())
+                self.est.fit(given)
+            require(np.array_equal(given, X), "fit changed the caller's data", kind=self.kind, store=store)
             self.fit_state = (self.cfg["metric"], kk, X)
         elif k_ == "predict":
             name, kk, X = self.fit_state
@@ -775,6 +794,8 @@ def cluster_life_info(history):
     kinds = [h["op"] for h in history]
     cl = ["life_op=" + k for k in sorted(set(kinds))] + ["life_kind=" + history[0].get("kind", "?"),
                                                         "life_fits=%d" % min(kinds.count("fit"), 3)]
+    tables = [(h.get("store"), h["n"], h["d"]) for h in history if h["op"] == "fit" and h.get("store", "copy") != "copy"]
+    cl.append("life_same_table_refilled=%s" % (len(tables) != len(set(tables))))
     nt, seen_fit, pending = False, False, False
     for k in kinds:
         if k == "fit":
@@ -829,9 +850,12 @@ def make_cluster_life(hooks):
             self.do(op)
 
         @precondition(lambda self: not self.dead and self.core.est is not None)
-        @rule(seed=st.integers(0, 10 ** 6), n=st.integers(3, 25), d=st.integers(1, 3))
-        def fit(self, seed, n, d):
-            self.do({"op": "fit", "seed": seed, "n": n, "d": d})
+        @rule(seed=st.integers(0, 10 ** 6), n=st.integers(3, 25), d=st.integers(1, 3),
+              store=st.sampled_from(["copy", "copy", "refill_F", "refill_colslice"]))
+        def fit(self, seed, n, d, store):
+            if store != "copy":
+                n, d = 6 + n % 3, 1 + d % 2          # few shapes, so that a history meets the same table again
+            self.do({"op": "fit", "seed": seed, "n": n, "d": d, "store": store})
 
         @precondition(lambda self: not self.dead and self.core.fit_state is not None)
         @rule(seed=st.integers(0, 10 ** 6), n=st.integers(1, 12), shift=st.sampled_from([0.0, 0.5, 3.0]))
@@ -863,7 +887,7 @@ CLAUSES = [
     Clause("near_ties_and_tiny_scales", near_tie_case(), run_all, quick=600, thorough=9000,
            doc="all sentences on warm starts where a frame's two center distances differ by 1e-5..1e-7 relative (the later "
                "or the earlier center being the closer one) and on data with 1e-9..1e-12 coordinates"),
-    Clause("estimator_life", None, run_cluster_life, quick=160, thorough=3000, stateful=make_cluster_life, steps=10,
+    Clause("estimator_life", None, run_cluster_life, quick=400, thorough=4000, stateful=make_cluster_life, steps=10,
            doc="stateful: construct / reconfigure / fit / predict histories of one KCenters / KHybrid / KMedoids object; the "
                "fitted attributes always describe the last fit under the metric and cluster count it had then"),
     Clause("all_large", _L, run_all, quick=0, thorough=4000, doc="all sentences on 20..300 frames x 1..8 dims"),
